@@ -3,6 +3,7 @@
 package core
 
 import (
+	_ "embed"
 	"fmt"
 	"go/ast"
 	"go/token"
@@ -406,4 +407,46 @@ func (p *Prog) SyntaxFunc(fn *ssa.Function) *ast.FuncDecl {
 		return fd
 	}
 	return nil
+}
+
+//go:embed baseline_funcs.txt
+var baselineFuncs string
+
+var baselineSet map[string]bool
+
+// IsNewFunc reports whether fn is a module function that is not in the
+// baseline census (internal/core/baseline_funcs.txt: every function of
+// snower/slock that existed when the rule tables were confirmed by reading).
+// The rules know nothing about such a function - typically a helper split out
+// of a function they analyse - so the explorer looks through it instead of
+// treating it as an opaque call. Closures are judged by their enclosing
+// function (their own names are positional).
+func (p *Prog) IsNewFunc(fn *ssa.Function) bool {
+	if fn == nil || !InModule(fn) || fn.Synthetic != "" {
+		return false
+	}
+	if baselineSet == nil {
+		baselineSet = map[string]bool{}
+		for _, l := range strings.Split(baselineFuncs, "\n") {
+			if l = strings.TrimSpace(l); l != "" && !strings.HasPrefix(l, "#") {
+				baselineSet[l] = true
+			}
+		}
+	}
+	for fn.Parent() != nil {
+		fn = fn.Parent()
+	}
+	return !baselineSet[FuncName(fn)]
+}
+
+// FuncCensus lists the module's named functions (for regenerating the baseline).
+func (p *Prog) FuncCensus() []string {
+	var out []string
+	for _, fn := range p.Funcs() {
+		if fn.Parent() == nil && fn.Synthetic == "" && InModule(fn) {
+			out = append(out, FuncName(fn))
+		}
+	}
+	sort.Strings(out)
+	return out
 }
